@@ -1893,12 +1893,15 @@ impl<'a, E: quiver_core::effects::Effect> Compiler<'a, E> {
             // Register in scope
             // For simple identifier bindings (single binding), preserve the value's provenance
             // so tuple field provenance is preserved. For complex patterns (destructuring),
-            // use Unknown since path resolution is complex.
-            let var_provenance = if bindings.len() == 1 {
-                value_provenance.clone()
-            } else {
-                Provenance::Unknown
-            };
+            // use Unknown since path resolution is complex. A lone binder *inside* the pattern
+            // (`=Cons[_, t]`, `=(y: v)`) names a part of the value, not the value: giving it the
+            // value's provenance would apply the value's narrowings to the part.
+            let var_provenance =
+                if bindings.len() == 1 && pattern::binds_whole_value(&binding_sets, variable_name) {
+                    value_provenance.clone()
+                } else {
+                    Provenance::Unknown
+                };
 
             if let Some(scope) = self.scopes.last_mut() {
                 // A new binding of this name replaces the old variable: narrowings recorded for
